@@ -238,7 +238,14 @@ func run(r *mon.Run) {
 						problem = "NewDecoder: " + derr.Error()
 					} else {
 						runtime.Gosched()
-						out, rerr := io.ReadAll(dec)
+						var out []byte
+						var rerr error
+						if k%2 == 0 {
+							out, rerr = io.ReadAll(dec)
+						} else {
+							// a consumer with a small buffer: part of a verified record stays pending inside the decoder while others run
+							out, rerr = slowRead(dec, 1+g.Intn(7), len(payload)+len(buf.Bytes())+16)
+						}
 						if rerr != nil || !bytes.Equal(out, payload) {
 							problem = fmt.Sprintf("decode gives %d bytes (err=%v), payload has %d", len(out), rerr, len(payload))
 						}
@@ -256,6 +263,69 @@ func run(r *mon.Run) {
 		}
 		wg.Wait()
 		r.Distinct("concurrent")
+	}
+	// several decoders alive at once in one goroutine, read in turns with buffers smaller than a record: what one of them has
+	// verified but not yet delivered must not be disturbed by the work of the others
+	for ii := 0; ii < 24; ii++ {
+		if !r.Mine(ii) {
+			continue
+		}
+		g := r.Rand("interleaved", ii)
+		type live struct {
+			d       draft
+			rs      int
+			payload []byte
+			dec     io.Reader
+			out     []byte
+			err     error
+			done    bool
+		}
+		var ls []*live
+		for w := 0; w < 2+g.Intn(4); w++ {
+			d := drafts[(ii+w)%2]
+			if ii%4 == 3 {
+				d = drafts[ii/4%2] // same draft for all
+			}
+			rs := mon.Pick(g, []int{1, 2, 7, 16, 33, 64, 255, 4096})
+			payload := g.Bytes(mon.Pick(g, []int{1, rs - 1, rs, rs + 1, 2*rs + 1, 3 * rs, 5*rs + rs/2}))
+			var buf bytes.Buffer
+			digest, err := d.enc.Encode(&buf, payload, rs)
+			if err != nil {
+				r.Violation(fmt.Sprintf("mi:interleaved-encode:%s:rs%d:len%d", d.enc, rs, len(payload)), "Encode: "+err.Error(), nil)
+				continue
+			}
+			dec, derr := d.enc.NewDecoder(bytes.NewReader(append([]byte(nil), buf.Bytes()...)), digest, 16384)
+			if derr != nil {
+				r.Violation(fmt.Sprintf("mi:interleaved-newdecoder:%s:rs%d:len%d", d.enc, rs, len(payload)), "NewDecoder: "+derr.Error(), nil)
+				continue
+			}
+			ls = append(ls, &live{d: d, rs: rs, payload: payload, dec: dec})
+		}
+		for steps, open := 0, len(ls); open > 0 && steps < 1<<20; steps++ {
+			l := ls[g.Intn(len(ls))]
+			if l.done {
+				continue
+			}
+			dst := make([]byte, 1+g.Intn(l.rs/2+2))
+			n, err := l.dec.Read(dst)
+			l.out = append(l.out, dst[:n]...)
+			for i := range dst {
+				dst[i] = 0xCC
+			}
+			if err != nil || len(l.out) > len(l.payload)+64 {
+				l.done, l.err = true, err
+				open--
+			}
+		}
+		for w, l := range ls {
+			if l.err == io.EOF && bytes.Equal(l.out, l.payload) {
+				r.Eval("interleaved-ok")
+				continue
+			}
+			r.Eval("INTERLEAVED-MISMATCH")
+			r.Violation(fmt.Sprintf("mi:interleaved:%s:rs%d:len%d:w%d", l.d.enc, l.rs, len(l.payload), w), fmt.Sprintf("%s rs=%d len=%d, decoder %d of %d read in turns with the others: %d bytes delivered (err=%v, done=%v), first difference from the payload at %d", l.d.enc, l.rs, len(l.payload), w, len(ls), len(l.out), l.err, l.done, firstDiff(l.out, l.payload)), nil)
+		}
+		r.Distinct(fmt.Sprintf("interleaved|%d-decoders", len(ls)))
 	}
 	// payloads that are windows of one larger buffer (slices with spare capacity): the windows are encoded one after
 	// the other, then each stream is decoded and compared with what the window held before anything was encoded
@@ -345,6 +415,24 @@ func run(r *mon.Run) {
 		sc := []schedule{schedules[0], mon.Pick(g, schedules[3:])}
 		one(r, d, g.Bytes(l), rs, "random", sc, 37)
 	}
+}
+
+// slowRead drains rd with a dst of n bytes, yielding between reads; it gives up after limit bytes.
+func slowRead(rd io.Reader, n, limit int) ([]byte, error) {
+	var out []byte
+	dst := make([]byte, n)
+	for len(out) <= limit {
+		m, err := rd.Read(dst)
+		out = append(out, dst[:m]...)
+		if err == io.EOF {
+			return out, nil
+		}
+		if err != nil {
+			return out, err
+		}
+		runtime.Gosched()
+	}
+	return out, fmt.Errorf("no end of stream after %d bytes", len(out))
 }
 
 func firstDiff(a, b []byte) int {
